@@ -6,6 +6,7 @@ import Cppcms.C12.Limits
 import Cppcms.C12.EndToEnd
 import Cppcms.C12.Events
 import Cppcms.C12.Readback
+import Cppcms.C12.Accept
 /-!
 # C12 property theorems
 
@@ -545,6 +546,148 @@ theorem filter_events_chunking_independent (cfg : Cfg) (cl : Nat) (cs₁ cs₂ :
     noProg (evRun cfg cl {} cs₁) = noProg (evRun cfg cl {} cs₂) := by
   have h0 : ({} : RS).read = 0 := rfl
   rw [evRun_flatten cfg cl cs₁ {} (by rw [h0]; omega), evRun_flatten cfg cl cs₂ {} (by rw [h0, ← hjoin]; omega), hjoin]
+
+/-! ## which bodies are accepted, and what happens to the others -/
+
+/-- **multipart_accept_iff**: with a working disk and no CR in the boundary key, a body
+delivered in any chunking is accepted (`ready parts`) **iff** it is, byte for byte,
+`--bkey` · (`CRLF` *header block* *content* `CRLF--bkey`)* · `--CRLF` with exactly the declared
+length, where a header block is any byte string that the parser's scanner ends at its last byte
+and `process_header` accepts (`headerOK`: the documented leniencies — any header lines, any
+case, unknown parameters, quoted or token values), a content is any byte string in which the
+delimiter does not end before the end of `content ++ delimiter` (`NoEarly`; equivalent to "does
+not contain the delimiter" by `noEarly_of_not_infix`), and every form field is within the field
+limit; `parts` are then exactly the parts written.  Everything else — missing or damaged closing
+delimiter, a part header the parser rejects, end of data inside a part, junk after the closing
+delimiter, a wrong declared length — is not accepted (`malformed_refused`). -/
+theorem multipart_accept_iff (cfg : Cfg) (bkey : Bytes) (hb : cfg.boundary = Spec.delimiter bkey)
+    (hcr : (13 : UInt8) ∉ bkey) (hdisk : cfg.diskOk = true) (cl : Nat) (h0 : 0 < cl)
+    (cs : List Bytes) (hlen : cs.flatten.length ≤ cl) (parts : List Part) :
+    run cfg cl {} cs = .ready parts ↔
+      ∃ items : List Item, (∀ it ∈ items, ItemOK cfg it)
+        ∧ cs.flatten = Spec.encodeWith bkey (items.map fun it => (it.hdr, it.data))
+        ∧ cs.flatten.length = cl ∧ parts = items.map Item.part := by
+  have hb' : cfg.boundary = 13 :: 10 :: 45 :: 45 :: bkey := by rw [hb]; rfl
+  have g : Guard cfg.boundary := ⟨bkey, hb', hcr⟩
+  have h0r : ({} : RS).read = 0 := rfl
+  constructor
+  · intro h
+    rw [run_flatten cfg cl cs {} (by rw [h0r]; omega)] at h
+    -- the declared length is reached
+    have hfull : cs.flatten.length = cl := by
+      by_cases hne : cs.flatten.length = cl
+      · exact hne
+      exfalso
+      rw [run_cons] at h
+      cases hp : progress cfg cl {} cs.flatten with
+      | error e => rw [hp] at h; cases h
+      | ok s' =>
+        rw [hp] at h
+        have := progress_read hp
+        simp only [run, h0r, Nat.zero_add] at h this
+        have : (s'.read == cl) = false := by simp only [beq_eq_false_iff_ne, ne_eq]; omega
+        simp [this] at h
+    have hne : cs.flatten ≠ [] := by intro e; rw [e] at hfull; simp at hfull; omega
+    rw [← hfull] at h
+    obtain ⟨pf, hacc, hfiles⟩ := run_single_ready cfg cs.flatten parts hne h
+    have hinit : ({} : P).pos + (bkey.length + 1) + 1 = cfg.boundary.length := by rw [hb']; simp [Gen.initPos]; omega
+    obtain ⟨s', hsplit, h1⟩ := first_boundary_decomp cfg (bkey.length + 1) cs.flatten {} pf .continueInput rfl hinit (by decide) hacc
+    obtain ⟨items, htail, hoks, hfl⟩ := tail_decomp cfg g hdisk s'.length s' { st := .crlfOrEof, pos := 0 } pf .continueInput
+      (Nat.le_refl _) rfl rfl rfl rfl rfl (by decide) h1
+    refine ⟨items, hoks, ?_, hfull, ?_⟩
+    · rw [encodeWith_eq, ← hb', hsplit, htail]
+      have : ({} : P).pos = 2 := rfl
+      rw [this, hb']; simp
+    · rw [← hfiles]; simp [P.files, hfl]
+  · rintro ⟨items, hoks, henc, hfull, rfl⟩
+    rw [run_flatten cfg cl cs {} (by rw [h0r]; omega), ← hfull]
+    exact run_single_roundtrip cfg bkey hb' hcr hdisk items hoks cs.flatten henc
+
+/-- **malformed_refused**: a body of the declared length that is *not* such an encoding is
+answered with an error status (400 or 413) under every chunking — never delivered. -/
+theorem malformed_refused (cfg : Cfg) (bkey : Bytes) (hb : cfg.boundary = Spec.delimiter bkey)
+    (hcr : (13 : UInt8) ∉ bkey) (hdisk : cfg.diskOk = true) (cl : Nat) (h0 : 0 < cl)
+    (cs : List Bytes) (hlen : cs.flatten.length = cl)
+    (hbad : ¬ ∃ items : List Item, (∀ it ∈ items, ItemOK cfg it)
+        ∧ cs.flatten = Spec.encodeWith bkey (items.map fun it => (it.hdr, it.data))) :
+    ∃ code, run cfg cl {} cs = .error code ∧ (code = 400 ∨ code = 413) := by
+  have h0r : ({} : RS).read = 0 := rfl
+  cases hrun : run cfg cl {} cs with
+  | error code => exact ⟨code, rfl, run_codes cfg cl cs {} code hrun⟩
+  | ready parts =>
+    exfalso
+    obtain ⟨items, hoks, henc, _, _⟩ := (multipart_accept_iff cfg bkey hb hcr hdisk cl h0 cs (by omega) parts).mp hrun
+    exact hbad ⟨items, hoks, henc⟩
+  | pending =>
+    exfalso
+    rw [run_flatten cfg cl cs {} (by rw [h0r]; omega), run_cons] at hrun
+    cases hp : progress cfg cl {} cs.flatten with
+    | error e => rw [hp] at hrun; cases hrun
+    | ok s' =>
+      rw [hp] at hrun
+      have := progress_read hp
+      simp only [run, h0r, Nat.zero_add] at hrun this
+      have : (s'.read == cl) = true := by simp only [beq_iff_eq]; omega
+      simp [this] at hrun
+
+/-- **declared_shorter_refused**: a body that would be accepted at its true length, declared
+shorter (`0 < content_length < length`; the front-end then hands over only the first
+`content_length` bytes): refused with 400 or 413 under every chunking, nothing delivered.
+(`content_length = 0` means "no body" to every front-end: nothing is read, the application
+sees an empty form.) -/
+theorem declared_shorter_refused (cfg : Cfg) (B : Bytes) (parts : List Part)
+    (hacc : run cfg B.length {} [B] = .ready parts) (cl : Nat) (h0 : 0 < cl) (hlt : cl < B.length)
+    (cs : List Bytes) (hcs : cs.flatten = B.take cl) :
+    ∃ code, run cfg cl {} cs = .error code ∧ (code = 400 ∨ code = 413) := by
+  have h0r : ({} : RS).read = 0 := rfl
+  have hBne : B ≠ [] := by intro e; rw [e] at hlt; simp at hlt
+  obtain ⟨pf, hB, _⟩ := run_single_ready cfg B parts hBne hacc
+  have hl : cs.flatten.length = cl := by rw [hcs, List.length_take]; omega
+  have hne : B.take cl ≠ [] := by
+    intro e; rw [← hcs] at e; rw [e] at hl; simp at hl; omega
+  have hdrop : B.drop cl ≠ [] := by
+    intro e; have := congrArg List.length e; rw [List.length_drop, List.length_nil] at this; omega
+  rw [run_flatten cfg cl cs {} (by rw [h0r]; omega), hcs, run_cons, progress_eq]
+  have e1 : (B.take cl).isEmpty = false := by cases hq : B.take cl <;> simp_all
+  have hlen2 : (B.take cl).length = cl := by rw [← hcs]; exact hl
+  simp only [e1, Bool.false_eq_true, if_false, h0r, Nat.zero_add, hlen2, beq_self_eq_true, Bool.true_and]
+  cases hp : ploop cfg true ({} : RS).p (B.take cl) .continueInput with
+  | error code => exact ⟨code, rfl, ploop_codes cfg _ _ _ _ _ hp⟩
+  | ok pr =>
+    obtain ⟨p', r⟩ := pr
+    by_cases hr : r = .eof
+    · exfalso
+      subst hr
+      have := accept_then_more_refused cfg true (B.take cl) _ p' _ .continueInput (B.drop cl) hne hdrop hp
+      rw [List.take_append_drop] at this
+      have hp0 : ({} : RS).p = ({} : P) := rfl
+      rw [hp0, hB] at this
+      cases this
+    · have : (r != Res.eof) = true := by simpa using hr
+      exact ⟨400, by simp [this]; rfl, Or.inl rfl⟩
+
+/-- **incomplete_never_delivered**: as long as fewer bytes than declared have arrived (in
+particular when the connection ends early: the read never completes and the context is dropped
+without an answer) the request is either still pending or already refused — it is never
+handed to the application, in whole or in part. -/
+theorem incomplete_never_delivered (cfg : Cfg) (cl : Nat) (cs : List Bytes) (hlt : cs.flatten.length < cl)
+    (parts : List Part) : run cfg cl {} cs ≠ .ready parts := by
+  have h0r : ({} : RS).read = 0 := rfl
+  rw [run_flatten cfg cl cs {} (by rw [h0r]; omega), run_cons]
+  cases hp : progress cfg cl {} cs.flatten with
+  | error e => simp
+  | ok s' =>
+    have := progress_read hp
+    simp only [run, h0r, Nat.zero_add] at this ⊢
+    have : (s'.read == cl) = false := by simp only [beq_eq_false_iff_ne, ne_eq]; omega
+    simp [this]
+
+/-- non-vacuity of `declared_shorter_refused` / `multipart_accept_iff`: the empty form `--x--CRLF` -/
+example : run { boundary := [13, 10, 45, 45, 120], memLimit := 0, diskOk := true, fieldLimit := 10 } 7 {}
+    [[45, 45, 120, 45, 45, 13, 10]] = .ready [] := by decide
+example : ∃ code, run { boundary := [13, 10, 45, 45, 120], memLimit := 0, diskOk := true, fieldLimit := 10 } 3 {}
+    [[45, 45], [120]] = .error code ∧ (code = 400 ∨ code = 413) :=
+  declared_shorter_refused _ [45, 45, 120, 45, 45, 13, 10] [] (by decide) 3 (by decide) (by decide) _ (by decide)
 
 /-! ## reading the parts back -/
 
